@@ -46,3 +46,15 @@ Proof.
     apply (TRI_more (SLit l []) [KScal l] a (SLit l a) [SLit r []] [KScal r]); [apply (TR_lit l [])|destruct a; reflexivity|apply TRI_one; apply (TR_lit r [])].
 Qed.
 Print Assumptions C14_comma_placement.
+
+(* the whole statement on the model: SLay s ts - the text s is a layout of the token sequence ts (any blanks and line
+   ends of any style, `#` comments, inline annotations ended by the line or the text, notes as blocks, references with
+   any spacing around their bars, scalars followed by something that cannot extend them).  Every layout is read back
+   as its token sequence, hence every layout of every writing of a tree gives that tree, and two layouts agree. *)
+Theorem C14_lexer_layout : forall s ts, SLay s ts -> forall f, (length s < f)%nat -> slex f s = Ok ts.
+Proof. exact slex_layout. Qed.
+Print Assumptions C14_lexer_layout.
+Theorem C14_layout_independent : forall v tv s1 s2, TR v tv -> SLay s1 tv -> SLay s2 tv ->
+  sparse s1 = Some v /\ sparse s2 = Some v.
+Proof. intros v tv s1 s2 Ht H1 H2. split; eapply sparse_layout; eassumption. Qed.
+Print Assumptions C14_layout_independent.
